@@ -110,6 +110,19 @@ def generate(problems):
                         elif isinstance(x, ast.Expr) and "append" in nm:
                             steps.append("read source")
                     break
+    # --- set_target_value: the statements that write the target (source text, in order)
+    stv = find_method(links, "ActionLink", "set_target_value")
+    writes = []
+    if stv is None:
+        problems.append("LinksOrder: ActionLink.set_target_value not found")
+    else:
+        for node in ast.walk(stv):
+            if isinstance(node, ast.Assign) and any(isinstance(t, ast.Subscript) for t in node.targets):
+                writes.append((node.lineno, ast.unparse(node)))
+            elif isinstance(node, ast.Expr) and isinstance(node.value, ast.Call) and isinstance(node.value.func, ast.Attribute) \
+                    and node.value.func.attr in ("update", "__setitem__", "setdefault", "pop", "__setattr__"):
+                writes.append((node.lineno, ast.unparse(node)))
+    body += "def setTargetWrites : List String := %s\n" % lean_str_list([t for _, t in sorted(writes)])
     body += "def applyGuards : List String := %s\n" % lean_str_list(guards)
     body += "def applySourceSteps : List String := %s\n" % lean_str_list(steps)
     body += "end Jap.Gen.LinksOrder\n"
